@@ -84,7 +84,13 @@ func vC07GenAttack(r *rand.Rand, qn vC07Name, qtype uint16) (vC07Attack, []strin
 	}
 	qs := qn.String()
 	// ---- answer section
-	switch r.Intn(10) {
+	switch r.Intn(12) {
+	case 10:
+		a.answer = []vC07RRSpec{rrA("www.victim.l2.", 12), rrCN(qn, "www.victim.l2.")}
+		tags = append(tags, "ans-tail-before-cname")
+	case 11:
+		a.answer = []vC07RRSpec{rrA("www.victim.l2.", 13), rrCN(qn, "t.evil.l1."), rrA("t.evil.l1.", 14), rrA("www.bank.l1.", 15)}
+		tags = append(tags, "ans-foreign-around-in-zone-chain")
 	case 0:
 		tags = append(tags, "ans-none")
 	case 1:
@@ -193,8 +199,8 @@ func (l *vC07Lab) askVictims(p *vC07Pipe) (bad []string, desc []string) {
 				bad = append(bad, "forged record served for "+v+": "+vC07Ident(rr))
 			}
 		}
-		if rep.Rcode == dns.RcodeSuccess && len(rep.Answer) == 0 {
-			bad = append(bad, "victim name "+v+" lost its answer")
+		if rep.Rcode != dns.RcodeSuccess || len(rep.Answer) == 0 {
+			bad = append(bad, fmt.Sprintf("victim name %s is no longer answered (%s, %d answer records)", v, dns.RcodeToString[rep.Rcode], len(rep.Answer)))
 		}
 	}
 	asked := l.drainAsked()
@@ -483,6 +489,98 @@ func TestVerifC07Lab(t *testing.T) {
 					return rep.Rcode
 				}(),
 				"glue_cache": glueDesc, "delegation_cache": delegDesc, "victim_replies": vdesc, "servers_asked_during_attack": vC07Sorted(askedAttack)},
+		})
+	}
+
+	// ------------------------------------------------- rewritten question section
+	// the attacker answers with the right ID but echoes another question (a victim name), with
+	// every rcode an authority may send and with or without records for that name
+	echoN := n / 6
+	if echoN < 10 {
+		echoN = 10
+	}
+	for c := 0; c < echoN; c++ {
+		minLevel := []int{0, 3}[r.Intn(2)]
+		qn := vC07Name{fmt.Sprintf("e%d", c), "evil", "l1"}
+		qs := qn.String()
+		var attack vC07Attack
+		attack.rcode = []int{dns.RcodeNameError, dns.RcodeNameError, dns.RcodeRefused, dns.RcodeSuccess, dns.RcodeServerFailure, dns.RcodeFormatError}[r.Intn(6)]
+		victimQ := []string{"www.victim.l2.", "mail.victim.l2.", "www.bank.l1.", "victim.l2."}[r.Intn(4)]
+		echoed := vC07Parse(victimQ)
+		echoType := dns.TypeA
+		tags := []string{"echo-" + strings.ToLower(dns.RcodeToString[attack.rcode])}
+		bare := c%2 == 0 // half of the scenarios: a foreign question on a bare header, one per rcode in turn
+		if bare {
+			attack.rcode = []int{dns.RcodeNameError, dns.RcodeRefused, dns.RcodeSuccess, dns.RcodeServerFailure, dns.RcodeFormatError, dns.RcodeNotImplemented}[(c/2)%6]
+			tags[0] = "echo-" + strings.ToLower(dns.RcodeToString[attack.rcode])
+		}
+		pick := r.Intn(4)
+		if bare {
+			pick = 3
+		}
+		switch pick {
+		case 0:
+			echoed = vC07CaseMix(r, qn) // same question in another case: a legitimate echo
+			tags = append(tags, "same-name-case")
+		case 1:
+			echoed = append(vC07Name{}, qn...)
+			echoType = dns.TypeAAAA
+			tags = append(tags, "same-name-other-type")
+		default:
+			tags = append(tags, "foreign-name")
+		}
+		if !bare && r.Intn(2) == 0 {
+			attack.answer = []vC07RRSpec{{owner: echoed, rrtype: dns.TypeA, class: dns.ClassINET, ttl: 300, ip: []byte{6, 6, 6, 44}}}
+			tags = append(tags, "with-answer")
+		}
+		if !bare && r.Intn(3) == 0 {
+			attack.ns = []vC07RRSpec{{owner: vC07N("victim.l2."), rrtype: dns.TypeSOA, class: dns.ClassINET, ttl: 300}}
+			tags = append(tags, "with-soa")
+		}
+		amsg := attack.msg()
+		amsg.Question = []dns.Question{{Name: echoed.String(), Qtype: echoType, Qclass: dns.ClassINET}}
+		l.evil.setHandle(func(q dns.Question) *dns.Msg {
+			if strings.EqualFold(q.Name, qs) && q.Qtype == dns.TypeA {
+				return amsg
+			}
+			return l.honestEvil(q)
+		})
+		p := l.newPipe(minLevel, scratch)
+		rep := p.ask(qs, dns.TypeA)
+		askedAttack := l.drainAsked()
+		seen := map[string]bool{}
+		var repAns []string
+		crc := -1
+		if rep != nil {
+			crc = rep.Rcode
+			for _, rr := range rep.Answer {
+				seen[vC07Ident(rr)] = true
+			}
+			repAns = vC07RRStrings(rep.Answer)
+		}
+		var vis []string
+		goFail := ""
+		for _, sp := range attack.answer {
+			v := seen[vC07Ident(sp.rr())]
+			vis = append(vis, fmt.Sprint(v))
+			if v && !vC07InEvil(sp.owner.String()) {
+				goFail = "reply to " + qs + " relays " + sp.String()
+			}
+		}
+		bad, vdesc := l.askVictims(p)
+		p.close()
+		l.evil.setHandle(l.honestEvil)
+		if len(bad) > 0 {
+			goFail = strings.Join(bad, "; ")
+		}
+		emit(map[string]any{
+			"k": "attack-" + tags[0],
+			"coq": fmt.Sprintf("CaseLabEcho %s (mk_q %s 1 1) (mk_q %s %d 1) %s [%s] [] [] %v", vC07N(vC07Evil).coq(), qn.coq(), echoed.coq(), echoType, attack.coq(),
+				strings.Join(vis, ";"), len(bad) > 0),
+			"nontrivial": true, "go_fail": goFail,
+			"desc": map[string]any{"zone": vC07Evil, "question": qs, "echoed_question": fmt.Sprintf("%s %s", echoed.String(), dns.TypeToString[echoType]), "qname_min_level": minLevel,
+				"attack": tags, "sent_rcode": attack.rcode, "sent_answer": vC07DescRRs(attack.answer), "sent_authority": vC07DescRRs(attack.ns),
+				"client_rcode": crc, "client_reply_answer": repAns, "victim_replies": vdesc, "servers_asked_during_attack": vC07Sorted(askedAttack)},
 		})
 	}
 
